@@ -155,6 +155,8 @@ func (c *serverDrain) start() string {
 		MaxStreams:       math.MaxUint32,
 		BufferPool:       mem.NewTieredBufferPool(256, 4<<10, 16<<10, 32<<10, 1<<20),
 		StaticWindowSize: true,
+		WriteBufferSize:  32 * 1024, // grpc's default (0 would make every frame write hit the conn)
+		ReadBufferSize:   32 * 1024,
 	}
 	st, err := transport.NewServerTransport(c.sconn, cfg)
 	if err != nil {
